@@ -1,4 +1,9 @@
 mod c05;
+mod c10;
+mod c11;
+mod corpus;
+mod front;
+mod reflex;
 mod common;
 mod prim;
 mod subject;
@@ -7,9 +12,10 @@ use common::*;
 
 /// All sub-checks of a property for a tier.
 fn checks_for(property: &str, tier: Tier) -> Vec<Box<dyn Check>> {
-    let _ = tier;
     match property {
         | "C05" => c05::checks(),
+        | "C10" => c10::checks(tier),
+        | "C11" => c11::checks(tier),
         | _ => vec![],
     }
 }
@@ -58,6 +64,12 @@ fn main() {
             let property = args[2].clone();
             let tier = Tier::parse(args.get(3).map(String::as_str).unwrap_or("quick"));
             let only = std::env::var("VERIF_ONLY").ok();
+            if matches!(property.as_str(), "C11" | "C12" | "C13" | "C14") {
+                if let Some(d) = c11::scanner_selfcheck() {
+                    eprintln!("MACHINERY ERROR: reference scanner disagrees with the repository lexer on an unmodified source: {d}");
+                    std::process::exit(4);
+                }
+            }
             let mut report = Report::new(&property, tier, level_for(&property));
             let checks = checks_for(&property, tier);
             if checks.is_empty() {
